@@ -36,7 +36,8 @@ ASSUMPTIONS = [
 ]
 FLOORS = {"programs:op-on-id-held-by-other": 0.05, "programs:drop-then-lookup": 0.1, "programs:failing-replace-registered": 0.08}
 
-LEAF_CLASSES = ["LeafA", "LeafB", "SubLeafA", "Falsy", "SlotLeaf", "Checked", "SameNameA", "SameNameB"]
+# (`Serial` carries a per-instance number that is neither a constructor argument nor compared: it is no part of the id)
+LEAF_CLASSES = ["LeafA", "LeafB", "SubLeafA", "Falsy", "SlotLeaf", "Checked", "SameNameA", "SameNameB", "Serial"]
 ORIGINS = [["no"], ["no"], ["code", 0, 0, 1], ["gen", 1], ["multi", [["code", 0, 0, 1], ["gen", 1]]],
            # two merged origins over the same positions and the same two sources that repeat a different one
            ["multi", [["code", 0, 0, 3], ["code", 1, 5, 8], ["code", 0, 10, 12]]],
@@ -471,6 +472,9 @@ class Machine:
                     require(Base.get(n.id, sentinel) is sentinel, "get-strict-default", f"step {self.step_no}")
                 other = M.cls("LeafB" if type(n).__name__ != "LeafB" else "LeafA")
                 require(other.get(n.id, sentinel, strict=False) is sentinel, "get-sibling-class", f"step {self.step_no}")
+                # `get_any` is untyped whichever class it is reached through
+                require(other.get_any(n.id) is n and type(n).get_any(n.id) is n, "lookup",
+                        f"step {self.step_no}: {other.__name__}.get_any({n.id}) does not return the registered {type(n).__name__}")
             else:
                 require(got is not n, "detached-node-returned", f"step {self.step_no}: get_any({n.id}) returns a detached node")
                 require(type(n).get(n.id) is not n, "detached-node-returned-get", f"step {self.step_no}")
@@ -509,7 +513,7 @@ def check_program(data: dict, lab: Labels) -> None:
 
 def st_program(ctx: Ctx):
     sel = st.integers(0, 50)
-    small = st.integers(0, 7)
+    small = st.integers(0, 8)
     new_leaf = st.tuples(st.just("new_leaf"), small, small, small).map(list)
     new_parent = st.tuples(st.just("new_parent"), small, st.lists(sel, min_size=1, max_size=3), small, small).map(list)
     simple = {
